@@ -63,6 +63,17 @@ CHECKS.update({
          "work-list invariant, termination measure and rebuild refinement in Lean 4; differential correspondence", "7 C13"),
 })
 
+SCR = "Modelled, not verified: the regex crate's semantics of the four patterns, str::trim/split, usize::from_str (re-specified in Lean). "
+CHECKS.update({
+ "C14": ("proof", "Props.C14.deploy_render: for every program whose tokens have legal texts and every legal formatting (Unicode white space, comments, blanks before '(', padding, optional nu prefix, upper-case dashed data; deploy_render_general + data_any_spelling for other spellings) deploying the text on the model equals running the abstract program (same graph and variable table, same outcome, same count); count_is_length; malformed_not_ok; stops_at_first_failure. The model's deploy is literal, incl. the next_id() a variable takes before a later argument fails. Tie: rendered programs deployed on the real code vs the model, and vs the same direct calls on a second real graph (observations compared); single-fault corruptions classified by the model.",
+         "parser/printer inversion theorems in Lean 4 (comment scanner, splitter, trim, LINE recogniser, token codecs); differential correspondence incl. implementation-vs-implementation", "7 C14"),
+})
+
+CHECKS.update({
+ "C07": ("proof", "PARTIAL. Proved on the model: within_limits_complete (valid calls never panic, unbounded histories), id_overrun_panics / label_overrun_panics / member_overrun_panics (an overrun stops with a panic and the state is not returned), computed_indices_in_range (in every reachable state every index the operations compute is in range, so only caller-supplied ids can be out of range). Not provable in a model: what the unsafe container code does to memory — examined by executing every operation file (valid, limit-violating, and continued after caught panics) on a harness built with AddressSanitizer; outcomes ok/panic must match the model call by call, any sanitizer report or abort is a violation.",
+         "model-level theorems + AddressSanitizer-backed differential correspondence (partial)", "7 C07"),
+})
+
 NOT_YET = {}
 
 def main():
@@ -76,7 +87,7 @@ def main():
             "replay_cmd_template": "./check replay {path}",
             "engine": "lean4+correspondence",
             "level_claimed": {"category": level, "text": text, "design_ref": "DESIGN.md section " + ref},
-            "level_note": BASE + (PURE if pid in ("C15", "C16", "C17") else CONT + (SER if pid in ("C08", "C09") else "") + (REN if pid in ("C18", "C20") else "") + (ALG if pid in ("C11", "C12", "C13") else "")),
+            "level_note": BASE + (PURE if pid in ("C15", "C16", "C17") else CONT + (SER if pid in ("C08", "C09") else "") + (REN if pid in ("C18", "C20") else "") + (ALG if pid in ("C11", "C12", "C13") else "") + (SCR if pid == "C14" else "")),
             "technique": tech,
         })
     props = [json.loads(l)["id"] for l in open(os.path.join(ROOT, "properties.jsonl"))]
